@@ -62,6 +62,9 @@ var props = map[string]propSpec{
 	"C16": {Sched: true, Level: "model_checking",
 		Rule:        "every schedule (within the stated preemption bound) of writers / a streaming Writer / a pinger against a local Close (peer echo early, late, never), a peer-initiated Close, and error-triggered Close frames (protocol violation, read limit, CloseRead policy violation) on one Conn over vpipe, both roles; oracle on the outbound byte log: after the first Close frame no data frame, no second Close frame; an outcome is the opcode sequence on the wire",
 		Assumptions: commonSched},
+	"C20": {Sched: true, Level: "model_checking",
+		Rule:        "all histories of length <= 2 (quick) / <= 3 (thorough) over {write, read, CloseRead, NetConn wrap + write, abandoned Writer, abandoned Reader} x ender {Close with echo, Close without echo, CloseNow, peer Close then Close, protocol error then Close, context expiry then CloseNow, transport failure then Close, NetConn.Close} x role, each explored over all schedules within the preemption bound; oracle: the scheduler's task table holds no unfinished library-spawned task at the instant the final Close/CloseNow returns",
+		Assumptions: commonSched},
 	"C17": {Seq: true, Level: "exploration",
 		Rule:        "every (length 0..4200, alignment 0..63, key) triple, plus every 2-split (len<=512) and 3-split (len<=96); a case is distinct by (impl,len,align,key[,split]) and non-trivial when len>0; outcome hash = hash of masked bytes and returned key",
 		Assumptions: []string{"arm64 assembly cannot be executed in this sandbox; only the Go and amd64 implementations are checked", "buffer contents are pseudo-random from VERIF_SEED; XOR is content independent"}},
